@@ -209,7 +209,8 @@ def check_finalize_input(chk, F):
     chk.rule(R, "finalize_input on model PSBTs (2 inputs, both indices): already-final inputs (either final field set) "
                 "are returned Ok and unchanged without consulting the helper; a failing helper returns its error and "
                 "leaves every input unchanged; a succeeding helper's (witness, scriptSig) are stored (None when empty), "
-                "utxo fields kept, every other field of that input reset, other inputs untouched")
+                "utxo fields and the unknown / proprietary fields kept (BIP-174: the finalizer clears everything but the UTXO "
+                "and unknown fields), every other field of that input reset, other inputs untouched")
     fi = F.fn("finalize_input", file="psbt/finalizer.rs")
     helper = F.fn("finalize_input_helper", file="psbt/finalizer.rs")
     chk.saw(fi, helper)
@@ -270,6 +271,10 @@ def check_finalize_input(chk, F):
                 want = default_input()
                 want.fields["non_witness_utxo"] = before[idx].fields["non_witness_utxo"]
                 want.fields["witness_utxo"] = before[idx].fields["witness_utxo"]
+                # BIP-174, Input Finalizer: "All other data except the UTXO and unknown fields in the input key-value map
+                # should be cleared": fields this library has no name for (unknown, proprietary) belong to someone else
+                want.fields["unknown"] = before[idx].fields["unknown"]
+                want.fields["proprietary"] = before[idx].fields["proprietary"]
                 want.fields["final_script_sig"] = NONE if s.empty else some(s)
                 want.fields["final_script_witness"] = NONE if w.empty else some(w)
                 diffs = [n for n in INPUT_FIELDS if repr(after[idx].fields.get(n)) != repr(want.fields[n])]
